@@ -676,6 +676,9 @@ func (m *machine) indexValue(x, idx value, it types.Type) value {
 		}
 		res = m.tt.Ite(c, v, res)
 	}
+	if !res.isConst() {
+		res = m.tt.caseSimplify(res)
+	}
 	return m.lower(res, ew, false)
 }
 
